@@ -28,7 +28,7 @@ const renderImports = "Bytes Errors CacheModel RenderModel CorrBase RenderCorr"
 // ---------------------------------------------------------------------------------------
 // shared printers
 
-func errClass(err error) string {
+func rdErrClass(err error) string {
 	var be *render.BrowseError
 	if errors.As(err, &be) {
 		return "(Err EBrowse)"
@@ -36,12 +36,12 @@ func errClass(err error) string {
 	return "(Err EGen)"
 }
 
-func resBytes(s string, err error, panicked bool) string {
+func rdResBytes(s string, err error, panicked bool) string {
 	if panicked {
 		return hx.Panic()
 	}
 	if err != nil {
-		return errClass(err)
+		return rdErrClass(err)
 	}
 	return hx.Ok(hx.S(s))
 }
@@ -83,7 +83,7 @@ func sinkCase(in sinkIn, kind string) hx.Case {
 	case pk:
 		join = hx.Panic()
 	case err != nil:
-		join = errClass(err)
+		join = rdErrClass(err)
 	default:
 		join = hx.Ok(fmt.Sprintf("(%s, %d)", hx.S(r), count))
 	}
@@ -103,7 +103,7 @@ func sinkCase(in sinkIn, kind string) hx.Case {
 			case gp:
 				pages = append(pages, hx.Panic())
 			case gerr != nil:
-				pages = append(pages, errClass(gerr))
+				pages = append(pages, rdErrClass(gerr))
 			default:
 				pages = append(pages, hx.Ok(sortedAlist(m)))
 			}
@@ -460,7 +460,7 @@ func (lr *liveRun) observe(out string) string {
 	ppk, _ := hx.Recover(func() {
 		ps, perr = lr.pg.RenderTemplate(ctx, "zzprobe", map[string]string{"_menu": "<M>"}, 0)
 	})
-	return fmt.Sprintf("(mkRobs %s %s %s %s %s %s %s)", out, crs, zsink, menu, hx.List(vals), usage, resBytes(ps, perr, ppk))
+	return fmt.Sprintf("(mkRobs %s %s %s %s %s %s %s)", out, crs, zsink, menu, hx.List(vals), usage, rdResBytes(ps, perr, ppk))
 }
 
 type stepObs struct {
@@ -478,7 +478,7 @@ func (lr *liveRun) apply(op rop) stepObs {
 		var s string
 		var err error
 		pk, _ := hx.Recover(func() { s, err = lr.pg.Render(ctx, lr.cfg.sym, op.idx) })
-		so.out = resBytes(s, err, pk)
+		so.out = rdResBytes(s, err, pk)
 		so.ok = !pk && err == nil
 		so.outText = s
 	case "reset":
@@ -518,7 +518,7 @@ func doRun(c rcfg, ops []rop) (string, []stepObs) {
 		var s string
 		var err error
 		pk, _ := hx.Recover(func() { s, err = lr.mn.Render(context.Background(), 0) })
-		end = resBytes(s, err, pk)
+		end = rdResBytes(s, err, pk)
 	}
 	mr := make([]string, len(lr.mapres))
 	for i, b := range lr.mapres {
@@ -852,6 +852,11 @@ func runRender(o opts) error {
 		c := simpleCfg(28, "T\n{{.foo}}", "aaaa\nbbbb\ncccc\ndddd", "next", "back")
 		c.labels["back"] = tblEntry{val: "tilbake til forrige side"}
 		w.Add(walkCase(c, "corpus:K-C02-labelsize"))
+	}
+	{
+		c := simpleCfg(22, "T\n{{.foo}}", "aaaa\nbbbb\ncccc\ndddd", "next", "back")
+		c.menu.sep = " - "
+		w.Add(walkCase(c, "corpus:K-C02-labelsize-separator"))
 	}
 	w.Add(walkCase(simpleCfg(26, "T\n{{.foo}}", "aaaa\nbbbb\ncccc\ndddd\neeee\nffff", "next", "back"), "corpus:four-pages"))
 	{
